@@ -2327,9 +2327,7 @@ impl Connection {
         ecn: Option<EcnCodepoint>,
         data: BytesMut,
     ) {
-        if remote == self.path.remote {
-            self.path.total_recvd = self.path.total_recvd.saturating_add(data.len() as u64);
-        }
+        let data_len = data.len() as u64;
         let mut remaining = Some(data);
         while let Some(data) = remaining {
             match PartialDecode::new(
@@ -2344,9 +2342,16 @@ impl Connection {
                 }
                 Err(e) => {
                     trace!("malformed header: {}", e);
-                    return;
+                    break;
                 }
             }
+        }
+        // One of these packets may have made the connection migrate to `remote`: account for the
+        // data afterwards, so that it raises the anti-amplification budget of the path it arrived
+        // on rather than that of the path just left (which would leave the new path unable to
+        // send even its PATH_CHALLENGE).
+        if remote == self.path.remote {
+            self.path.total_recvd = self.path.total_recvd.saturating_add(data_len);
         }
     }
 
